@@ -917,17 +917,26 @@ class Evaluator:
     def ev_BoolOp(self, n):
         # short-circuit: implicit-raise conditions of later operands are guarded by earlier ones
         vals = []
+        raw = []
         guard = z3.BoolVal(True)
         for e in n.values:
             saved = self.may_raise
             self.may_raise = []
-            v = self.eng.truth(self.ev(e))
+            r = self.ev(e)
+            v = self.eng.truth(r)
             mine = self.may_raise
             self.may_raise = saved
             for ok, kind, d in mine:
                 self.may_raise.append((z3.Implies(guard, ok), kind, d))
             vals.append(v)
+            raw.append(r)
             guard = z3.And(guard, v) if isinstance(n.op, ast.And) else z3.And(guard, z3.Not(v))
+        if all(r.t.k == 'int' for r in raw):
+            # `a or b` / `a and b` on integers yields one of the operands (Python value semantics), not a bool
+            out = raw[-1].z
+            for r, v in zip(reversed(raw[:-1]), reversed(vals[:-1])):
+                out = z3.If(v, r.z, out) if isinstance(n.op, ast.Or) else z3.If(v, out, r.z)
+            return SV(INT, out)
         return SV(BOOL, z3.And(vals) if isinstance(n.op, ast.And) else z3.Or(vals))
 
     def _narrowed(self, test, positive, node):
